@@ -211,3 +211,18 @@ Definition on_cycle (ds : dataset) (j : didx) : Prop :=
 (* the integer at the end of a path, if any *)
 Definition last_index (p : list part) : option Z :=
   match rev p with PInt z :: _ => Some z | _ => None end.
+
+(* decidable "the paths are pairwise different" (evaluated per run by RDF/RunMz.v) *)
+Definition part_eqb_ (a b : part) : bool :=
+  match a, b with
+  | PStr x, PStr y => String.eqb x y
+  | PInt x, PInt y => Z.eqb x y
+  | _, _ => false
+  end.
+Definition path_eqb (a b : list part) : bool := list_eqb part_eqb_ a b.
+
+Fixpoint distinct_paths (l : list (list part)) : bool :=
+  match l with
+  | [] => true
+  | p :: t => negb (existsb (path_eqb p) t) && distinct_paths t
+  end.
